@@ -93,7 +93,7 @@ func HarnessC09_RestartFromFile() {
 	own := &vfOwnGen{present: vfChoice("own_present", 2) == 1}
 	ownTok := 0
 	if own.present {
-		ownTok = 1 + vfChoice("own_ntok", 2)
+		ownTok = vfChoice("own_ntok", 3) // an entry registered without tokens yet is still an entry
 	}
 	in := vfArbRing(1, own, ownTok, now)
 	for _, t := range fileToks {
